@@ -7,7 +7,7 @@
   The facts about the GENERATED tables (`Gen/LexTables.lean`, `Gen/Unicode.lean`) enter as the
   hypothesis `LexTableOK`; `Inst/C17b.lean` discharges it by `decide`.
 -/
-import SoyVerif.Lemmas.LexPrintBase
+import SoyVerif.Lemmas.LexPrintUni
 import SoyVerif.Lemmas.ParserAdj
 
 set_option linter.unusedSimpArgs false
@@ -220,10 +220,53 @@ theorem alnum_false (T : LexTableOK) {rest : Bytes} (h : WordEnd rest) : isAlpha
     simp only [hdRune, isAlphaNumeric, h1, h2, Bool.or_eq_false_iff, beq_eq_false_iff_ne, decide_eq_false_iff_not]
     omega
 
+theorem alnumR_true (T : LexTableOK) {r : Nat} (h : alnumR r = true) : isAlphaNumeric (r : Int) = true := by
+  unfold alnumR at h
+  split at h
+  · rename_i hr
+    have h1 := T.letter ⟨r, hr⟩
+    have h2 := T.digit ⟨r, hr⟩
+    simp only at h1 h2
+    simp only [Bool.or_eq_true, Bool.and_eq_true, decide_eq_true_eq, beq_iff_eq] at h
+    simp only [isAlphaNumeric, h1, h2, Bool.or_eq_true, beq_iff_eq, decide_eq_true_eq]
+    omega
+  · exact h
+
+theorem letterR_true (T : LexTableOK) {r : Nat} (h : letterR r = true) : (r : Int) = 95 ∨ isLetterU (r : Int) = true := by
+  unfold letterR at h
+  split at h
+  · rename_i hr
+    have h1 := T.letter ⟨r, hr⟩
+    simp only at h1
+    simp only [Bool.or_eq_true, Bool.and_eq_true, decide_eq_true_eq, beq_iff_eq] at h
+    simp only [h1, decide_eq_true_eq]
+    omega
+  · exact Or.inr h
+
+theorem isDigit_eq (c : UInt8) : isDigit (c.toNat : Int) = isDig c := by
+  have e1 : ((48 : UInt8) ≤ c) ↔ 48 ≤ c.toNat := UInt8.le_iff_toNat_le
+  have e2 : (c ≤ (57 : UInt8)) ↔ c.toNat ≤ 57 := UInt8.le_iff_toNat_le
+  by_cases h1 : 48 ≤ c.toNat <;> by_cases h2 : c.toNat ≤ 57 <;>
+    simp [isDigit, isDig, e1, e2, h1, h2] <;> omega
+
+/-- the first rune after the dot is an ASCII digit iff the first byte is -/
+theorem runeAt_isDigit {c : UInt8} {t : Bytes} {r w : Nat} (hr : runeAt (c :: t) = some (r, w)) :
+    isDigit (r : Int) = isDig c := by
+  by_cases hc : c.toNat < 128
+  · rw [runeAt_ascii t hc] at hr
+    simp only [Option.some.injEq, Prod.mk.injEq] at hr
+    rw [← hr.1]; exact isDigit_eq c
+  · have h128 := runeAt_hi (by omega) hr
+    have e2 : (c ≤ (57 : UInt8)) ↔ c.toNat ≤ 57 := UInt8.le_iff_toNat_le
+    have : isDig c = false := by
+      simp only [isDig, Bool.and_eq_false_iff, decide_eq_false_iff_not, e2]; right; omega
+    rw [this]
+    simp only [isDigit, Bool.and_eq_false_iff, decide_eq_false_iff_not]; right; omega
+
 /-- `lexIdentRest` on the word `pre ++ k` (the lexer stands after `pre`): the type is the builtin's
     (`rt` from the table) or the one chosen by `lexIdent` -/
 theorem identRest_word (T : LexTableOK) {inp st} {pre k rest : Bytes} (h : InpAt inp st ((pre ++ k) ++ rest))
-    (hk : ∀ b ∈ k, isIdChar b = true) (hr : WordEnd rest) (ty rt : ItemType)
+    (hk : alnumBytes k = true) (hr : WordEnd rest) (ty rt : ItemType)
     (hl : (Gen.builtinIdents.lookup (pre ++ k) = some rt ∧ rt ≠ .tLiteral ∧ rt ≠ .tCss) ∨
           (Gen.builtinIdents.lookup (pre ++ k) = none ∧ rt = ty ∧ ty ≠ .tCommandEnd ∧ ty ≠ .tSpecialChar))
     (w le its) :
@@ -231,8 +274,7 @@ theorem identRest_word (T : LexTableOK) {inp st} {pre k rest : Bytes} (h : InpAt
       some (some .insideTag, L inp (st + (pre ++ k).length) (st + (pre ++ k).length) (hdW rest)
         ⟨rt, st + (pre ++ k).length, pre ++ k⟩ (its.push ⟨rt, st + (pre ++ k).length, pre ++ k⟩)) := by
   have h' : InpAt inp (st + pre.length) (k ++ rest) := inpAt_append (by simpa using h)
-  have hsc := scan_run (P := isAlphaNumeric) (hp := isAlphaNumeric_eof) k h' (fun b hb => alnum_true T (hk b hb))
-    (wordEnd_ascii hr) (alnum_false T hr) st w le its
+  have hsc := scan_runes (fun r hr => alnumR_true T hr) k.length k hk h' (wordEnd_ascii hr) (alnum_false T hr) st w le its
   have hpe : st + pre.length + k.length = st + (pre ++ k).length := by simp; omega
   have hsl := slice_L h (pe := st + pre.length + k.length) hpe (hdW rest) le its
   have he := emit_L h (pe := st + pre.length + k.length) hpe (hdW rest) le its rt
@@ -273,7 +315,7 @@ theorem lookup_special (T : LexTableOK) (c : UInt8) (k : Bytes) (hc : c = 36 ∨
 
 /-- a word that begins with a letter or `_`: an identifier or a keyword -/
 theorem step_word (T : LexTableOK) {inp p} {c : UInt8} {k rest : Bytes} (h : InpAt inp p ((c :: k) ++ rest))
-    (hc : isIdStart c = true) (hk : ∀ b ∈ k, isIdChar b = true) (hr : WordEnd rest) (rt : ItemType)
+    (hc : isIdStart c = true) (hk : alnumBytes k = true) (hr : WordEnd rest) (rt : ItemType)
     (hl : (Gen.builtinIdents.lookup (c :: k) = some rt ∧ rt ≠ .tLiteral ∧ rt ≠ .tCss) ∨
           (Gen.builtinIdents.lookup (c :: k) = none ∧ rt = .tIdent)) (le its) :
     Step2 inp p le its ⟨rt, c :: k⟩ := by
@@ -303,91 +345,78 @@ theorem step_word (T : LexTableOK) {inp p} {c : UInt8} {k rest : Bytes} (h : Inp
     rw [if_neg (by omega), if_neg (by omega), if_neg (by omega), if_neg (by omega), if_neg (by omega)]
     simpa [itemOf] using hr1
 
-theorem isDigit_eq (c : UInt8) : isDigit (c.toNat : Int) = isDig c := by
-  have e1 : ((48 : UInt8) ≤ c) ↔ 48 ≤ c.toNat := UInt8.le_iff_toNat_le
-  have e2 : (c ≤ (57 : UInt8)) ↔ c.toNat ≤ 57 := UInt8.le_iff_toNat_le
-  by_cases h1 : 48 ≤ c.toNat <;> by_cases h2 : c.toNat ≤ 57 <;>
-    simp [isDigit, isDig, e1, e2, h1, h2] <;> omega
-
-/-- `$name` -/
+/-- `$name`: the name is a run of letters / digits / `_` that begins with a letter or `_` -/
 theorem step_dollar (T : LexTableOK) {inp p} {c : UInt8} {k rest : Bytes} (h : InpAt inp p ((36 :: c :: k) ++ rest))
-    (hc : isIdStart c = true) (hk : ∀ b ∈ k, isIdChar b = true) (hr : WordEnd rest) (le its) :
+    (hk : alnumBytes (c :: k) = true) (hl : ∀ r w, runeAt (c :: k) = some (r, w) → letterR r = true)
+    (hr : WordEnd rest) (le its) :
     Step2 inp p le its ⟨.tDollarIdent, 36 :: c :: k⟩ := by
   intro w
-  have hn := isIdStart_nat hc
-  have hc8 : c.toNat < 128 := by omega
+  obtain ⟨r, wd, hrune, _⟩ := alnumBytes_cons_rune hk
   have h0 : InpAt inp p (36 :: (c :: (k ++ rest))) := by simpa using h
-  have h1 : InpAt inp (p + 1) (c :: (k ++ rest)) := inpAt_tail h0
+  have h1 : InpAt inp (p + 1) ((c :: k) ++ rest) := by simpa using inpAt_tail h0
   refine ⟨hdW rest, .ident, L inp p p 1 le its, ?_, ?_⟩
   · simp only [step, lexInsideTag, next_L h0 (by decide), Option.bind_eq_bind, Option.bind_some]
     simp [isSpaceEOL, isSpace, isEndOfLine, lexInsideTagMid, backup_L]
-  · have hkc : ∀ b ∈ c :: k, isIdChar b = true := by
-      intro b hb
-      rcases List.mem_cons.mp hb with rfl | hb
-      · simp [isIdChar, hc]
-      · exact hk b hb
-    have hr1 := identRest_word T (pre := [36]) (k := c :: k) (rest := rest) (st := p) h hkc hr .tDollarIdent .tDollarIdent
-      (Or.inr ⟨lookup_special T 36 _ (Or.inl rfl), rfl, by simp, by simp⟩) 1 le its
-    have hp : (L inp (p + 1) p 1 le its).peek = some ((c.toNat : Int), L inp (p + 1) p 1 le its) :=
-      peek_hd h1 (asciiHd_cons hc8) p 1 le its
-    have hlet := T.letter ⟨c.toNat, hc8⟩
-    simp only at hlet
+  · have hr1 := identRest_word T (pre := [36]) (k := c :: k) (rest := rest) (st := p) h hk hr .tDollarIdent .tDollarIdent
+      (Or.inr ⟨lookup_special T 36 _ (Or.inl rfl), rfl, by simp, by simp⟩) (wd : Int) le its
+    have hp : (L inp (p + 1) p 1 le its).peek = some ((r : Int), L inp (p + 1) p (wd : Int) le its) := by
+      unfold Lexer.peek
+      rw [next_rune h1 (runeAt_append rest hrune)]
+      simp only [Option.bind_eq_bind, Option.bind_some, Option.pure_def, backup_Lw]
+    have hlet := letterR_true T (hl r wd hrune)
     simp only [step, lexIdent, next_L h0 (by decide), Option.bind_eq_bind, Option.bind_some, hp]
     rw [if_neg (by decide), if_pos (by decide)]
     rw [if_neg (by
-      simp only [hlet, ne_eq, Bool.not_eq_true', decide_eq_false_iff_not, not_and, Decidable.not_not]
-      omega)]
+      rcases hlet with e | e
+      · simp [e]
+      · simp [e])]
     simpa [itemOf] using hr1
 
 /-- `.name` / `.3`: the type is decided by the first character after the dot -/
 theorem step_dot (T : LexTableOK) {inp p} {c : UInt8} {k rest : Bytes} (h : InpAt inp p ((46 :: c :: k) ++ rest))
-    (hk : ∀ b ∈ c :: k, isIdChar b = true) (hr : WordEnd rest) (le its) :
+    (hk : alnumBytes (c :: k) = true) (hr : WordEnd rest) (le its) :
     Step2 inp p le its ⟨if isDig c then .tDotIndex else .tDotIdent, 46 :: c :: k⟩ := by
   intro w
-  have hn := isIdChar_nat (hk c (by simp))
-  have hc8 : c.toNat < 128 := by omega
+  obtain ⟨r, wd, hrune, _⟩ := alnumBytes_cons_rune hk
   have h0 : InpAt inp p (46 :: (c :: (k ++ rest))) := by simpa using h
-  have h1 : InpAt inp (p + 1) (c :: (k ++ rest)) := inpAt_tail h0
+  have h1 : InpAt inp (p + 1) ((c :: k) ++ rest) := by simpa using inpAt_tail h0
   refine ⟨hdW rest, .ident, L inp p p 1 le its, ?_, ?_⟩
   · simp only [step, lexInsideTag, next_L h0 (by decide), Option.bind_eq_bind, Option.bind_some]
     simp [isSpaceEOL, isSpace, isEndOfLine, lexInsideTagMid, backup_L]
-  · have hty : (if isDigit (c.toNat : Int) = true then ItemType.tDotIndex else ItemType.tDotIdent) =
+  · have hty : (if isDigit (r : Int) = true then ItemType.tDotIndex else ItemType.tDotIdent) =
         (if isDig c = true then ItemType.tDotIndex else ItemType.tDotIdent) := by
-      have := isDigit_eq c
-      rw [this]
+      rw [runeAt_isDigit hrune]
     have hr1 := identRest_word T (pre := [46]) (k := c :: k) (rest := rest) (st := p) h hk hr
       (if isDig c then .tDotIndex else .tDotIdent) (if isDig c then .tDotIndex else .tDotIdent)
-      (Or.inr ⟨lookup_special T 46 _ (Or.inr (Or.inl rfl)), rfl, by split <;> simp, by split <;> simp⟩) 1 le its
+      (Or.inr ⟨lookup_special T 46 _ (Or.inr (Or.inl rfl)), rfl, by split <;> simp, by split <;> simp⟩) (wd : Int) le its
     simp only [step, lexIdent, next_L h0 (by decide), Option.bind_eq_bind, Option.bind_some]
     rw [if_pos (by decide)]
-    simp only [next_L h1 hc8, Option.bind_eq_bind, Option.bind_some, backup_L, hty]
+    simp only [next_rune h1 (runeAt_append rest hrune), Option.bind_eq_bind, Option.bind_some, backup_Lw, hty]
     simpa [itemOf] using hr1
 
 /-- `?.name` / `?.3` -/
 theorem step_qdot (T : LexTableOK) {inp p} {c : UInt8} {k rest : Bytes} (h : InpAt inp p ((63 :: 46 :: c :: k) ++ rest))
-    (hk : ∀ b ∈ c :: k, isIdChar b = true) (hr : WordEnd rest) (le its) :
+    (hk : alnumBytes (c :: k) = true) (hr : WordEnd rest) (le its) :
     Step2 inp p le its ⟨if isDig c then .tQuestionDotIndex else .tQuestionDotIdent, 63 :: 46 :: c :: k⟩ := by
   intro w
-  have hn := isIdChar_nat (hk c (by simp))
-  have hc8 : c.toNat < 128 := by omega
+  obtain ⟨r, wd, hrune, _⟩ := alnumBytes_cons_rune hk
   have h0 : InpAt inp p (63 :: (46 :: (c :: (k ++ rest)))) := by simpa using h
   have h1 : InpAt inp (p + 1) (46 :: c :: (k ++ rest)) := inpAt_tail h0
-  have h2 : InpAt inp (p + 1 + 1) (c :: (k ++ rest)) := inpAt_tail h1
+  have h2 : InpAt inp (p + 1 + 1) ((c :: k) ++ rest) := by simpa using inpAt_tail h1
   refine ⟨hdW rest, .ident, L inp p p 1 le its, ?_, ?_⟩
   · simp only [step, lexInsideTag, next_L h0 (by decide), Option.bind_eq_bind, Option.bind_some]
     simp [isSpaceEOL, isSpace, isEndOfLine, lexInsideTagMid, next_L h1, addPos_L2]
-  · have hty : (if isDigit (c.toNat : Int) = true then ItemType.tQuestionDotIndex else ItemType.tQuestionDotIdent) =
+  · have hty : (if isDigit (r : Int) = true then ItemType.tQuestionDotIndex else ItemType.tQuestionDotIdent) =
         (if isDig c = true then ItemType.tQuestionDotIndex else ItemType.tQuestionDotIdent) := by
-      have := isDigit_eq c
-      rw [this]
+      rw [runeAt_isDigit hrune]
     have hr1 := identRest_word T (pre := [63, 46]) (k := c :: k) (rest := rest) (st := p) h hk hr
       (if isDig c then .tQuestionDotIndex else .tQuestionDotIdent) (if isDig c then .tQuestionDotIndex else .tQuestionDotIdent)
-      (Or.inr ⟨lookup_special T 63 _ (Or.inr (Or.inr rfl)), rfl, by split <;> simp, by split <;> simp⟩) 1 le its
+      (Or.inr ⟨lookup_special T 63 _ (Or.inr (Or.inr rfl)), rfl, by split <;> simp, by split <;> simp⟩) (wd : Int) le its
     simp only [step, lexIdent, next_L h0 (by decide), Option.bind_eq_bind, Option.bind_some]
     rw [if_neg (by decide), if_neg (by decide), if_neg (by decide), if_neg (by decide), if_pos (by decide)]
     simp only [next_L h1 (by decide), Option.bind_eq_bind, Option.bind_some]
     rw [if_neg (by decide)]
-    simp only [next_L h2 hc8, Option.bind_eq_bind, Option.bind_some, backup_L, hty]
+    simp only [next_rune h2 (runeAt_append rest hrune), Option.bind_eq_bind, Option.bind_some, backup_Lw, hty]
     simpa [itemOf] using hr1
 
 end SoyVerif.Lemmas.LexPrint
